@@ -15,6 +15,7 @@ import (
 	"strconv"
 	"strings"
 	"sync"
+	"sync/atomic"
 	"time"
 
 	"github.com/gorilla/websocket"
@@ -174,6 +175,11 @@ func (b *rawBackend) serve(c net.Conn) {
 		keep := false
 		if b.respond != nil {
 			keep = b.respond(id, sr, c)
+		} else if req.Method == "HEAD" {
+			// (a body after a HEAD response would sit on the idle connection as an unsolicited response
+			// and make the client's transport tear the connection down under the next request)
+			c.Write([]byte("HTTP/1.1 200 OK\r\nContent-Length: 2\r\n\r\n"))
+			keep = true
 		} else {
 			c.Write([]byte("HTTP/1.1 200 OK\r\nContent-Length: 2\r\n\r\nok"))
 			keep = true
@@ -344,13 +350,13 @@ func httpReqDriver(a *Args) {
 	defer agent.Kill()
 	addr := fmt.Sprintf("127.0.0.1:%d", port)
 	hx.Reset("httpreq", "httpreq")
-	for _, c := range cases.Req {
+	one := func(c reqCase, pass string, rng *rand.Rand) {
 		method := c.Method
 		bodyClass := c.Body
 		if method == "GET" || method == "HEAD" || method == "OPTIONS" {
 			bodyClass = "none"
 		}
-		id := fmt.Sprintf("q%d", c.N)
+		id := fmt.Sprintf("q%d%s", c.N, pass)
 		target := concretePath(c.Path, rng) + concreteQuery(c.Query, rng)
 		host := concreteHost(c.Host)
 		hdrs := append(concreteReqHeader(c.H1, rng, 1), concreteReqHeader(c.H2, rng, 2)...)
@@ -383,6 +389,9 @@ func httpReqDriver(a *Args) {
 		be.mu.Unlock()
 		in := map[string]interface{}{"method": method, "target": target, "host": host, "hdrs": canonPairs(hdrs), "body": digest(body)}
 		sig := fmt.Sprintf("req:%s/%s/%s/%s/%s/%s/%s", c.Method, c.Path, c.Query, c.Host, c.H1, c.H2, bodyClass)
+		if pass != "" {
+			sig += ":concurrent"
+		}
 		if sr == nil {
 			// nothing arrived at the backend: the observation is "no request"
 			out := map[string]interface{}{"method": "NONE", "target": "", "host": "", "hdrs": []hpair{}, "body": digest(nil)}
@@ -393,9 +402,33 @@ func httpReqDriver(a *Args) {
 		}
 		res.Case(sig, map[string]interface{}{"request_line": method + " " + headOf([]byte(target), 80), "classes": c})
 	}
+	for _, c := range cases.Req {
+		one(c, "", rng)
+	}
+	// the same cases again, 16 at a time: proxy and agent handle every request with shared handlers,
+	// transports and pools, so state that leaks from one request into another only shows under overlap
+	runConcurrently(len(cases.Req), 16, func(i int) {
+		one(cases.Req[i], "c", rand.New(rand.NewSource(int64(hx.Seed())*1000003+int64(i))))
+	})
 	if ex, code := agent.Exited(); ex {
 		res.Note("agent exited with %d: %s", code, hx.Tail(agent.Output(), 1500))
 	}
+}
+
+// runConcurrently calls f(0..n-1) with at most `width` calls in flight.
+func runConcurrently(n, width int, f func(i int)) {
+	sem := make(chan struct{}, width)
+	var wg sync.WaitGroup
+	for i := 0; i < n; i++ {
+		sem <- struct{}{}
+		wg.Add(1)
+		go func(i int) {
+			defer wg.Done()
+			defer func() { <-sem }()
+			f(i)
+		}(i)
+	}
+	wg.Wait()
 }
 
 func canonPairs(h []hpair) []hpair {
@@ -555,6 +588,9 @@ func buildResp(c respCase, rng *rand.Rand, id string) *scriptedResp {
 		body = nil
 		sizes = nil
 		if framing == "close" {
+			// a server that closes after a bodiless response has to say so, or the client's transport
+			// keeps the connection for its next request
+			head.WriteString("Connection: close\r\n")
 			s.close = true
 		}
 	case framing == "length":
@@ -566,6 +602,7 @@ func buildResp(c respCase, rng *rand.Rand, id string) *scriptedResp {
 		}
 		s.chunked = true
 	default:
+		head.WriteString("Connection: close\r\n")
 		s.close = true
 	}
 	head.WriteString("\r\n")
@@ -765,8 +802,12 @@ func httpRespDriver(a *Args) {
 	defer agent.Kill()
 	addr := fmt.Sprintf("127.0.0.1:%d", port)
 	hx.Reset("httpresp"+a.Mode, "httpresp")
-	for _, c := range cases.Resp {
-		id := fmt.Sprintf("p%d", c.N)
+	var dead int32
+	one := func(c respCase, pass string, rng *rand.Rand) {
+		if atomic.LoadInt32(&dead) != 0 {
+			return
+		}
+		id := fmt.Sprintf("p%d%s", c.N, pass)
 		s := buildResp(c, rng, id)
 		mu.Lock()
 		scripts[id] = s
@@ -781,6 +822,9 @@ func httpRespDriver(a *Args) {
 		sig := fmt.Sprintf("resp:%d/%s/%s/%s/%s/%s/d%d/u%d/%s", c.Status, c.Method, c.H1, c.H2, c.Framing, c.Body, c.Declared, c.Undeclared, c.Interim)
 		if h2 {
 			sig = "h2c-" + sig
+		}
+		if pass != "" {
+			sig += ":concurrent"
 		}
 		raw := fmt.Sprintf("%s /c03/%s HTTP/1.1\r\nHost: svc.example\r\nX-Case: %s\r\n", c.Method, id, id)
 		if c.Method == "POST" {
@@ -813,16 +857,27 @@ func httpRespDriver(a *Args) {
 		if ex, code := agent.Exited(); ex {
 			kind, inRepo, exc := hx.RaceReport(agent.Output())
 			res.Note("agent exited with %d after case %s (%s, inRepo=%v): %s", code, sig, kind, inRepo, headOf([]byte(exc), 1500))
-			hx.Emit("ProcExit", "proc", "agent", "code", code, "report", kind, "sig", sig)
+			if atomic.CompareAndSwapInt32(&dead, 0, 1) {
+				hx.Emit("ProcExit", "proc", "agent", "code", code, "report", kind, "sig", sig)
+			}
 			return
 		}
 		if ex, code := proxy.Exited(); ex {
 			kind, inRepo, exc := hx.RaceReport(proxy.Output())
 			res.Note("proxy exited with %d after case %s (%s, inRepo=%v): %s", code, sig, kind, inRepo, headOf([]byte(exc), 1500))
-			hx.Emit("ProcExit", "proc", "proxy", "code", code, "report", kind, "sig", sig)
+			if atomic.CompareAndSwapInt32(&dead, 0, 1) {
+				hx.Emit("ProcExit", "proc", "proxy", "code", code, "report", kind, "sig", sig)
+			}
 			return
 		}
 	}
+	for _, c := range cases.Resp {
+		one(c, "", rng)
+	}
+	// the same cases again, 16 at a time (see httpReqDriver)
+	runConcurrently(len(cases.Resp), 16, func(i int) {
+		one(cases.Resp[i], "c", rand.New(rand.NewSource(int64(hx.Seed())*1000003+int64(i))))
+	})
 }
 
 // ---------------------------------------------------------------------------------------------
@@ -918,11 +973,11 @@ func identityDriver(a *Args) {
 			fp.Close()
 			return
 		}
-		for _, c := range groups[k] {
+		one := func(c idCase, pass string, rng *rand.Rand) {
 			if c.Kind == "shim-open" && !k.shim {
-				continue
+				return
 			}
-			id := fmt.Sprintf("i%d", c.N)
+			id := fmt.Sprintf("i%d%s", c.N, pass)
 			asserted := "user-" + randToken(rng, 6) + "@example.com"
 			var hdrs []hpair
 			var sentUser, sentAuth []string
@@ -991,6 +1046,9 @@ func identityDriver(a *Args) {
 			s := seen[id]
 			mu.Unlock()
 			sig := fmt.Sprintf("id:fwd=%v/strip=%v/shim=%v/sess=%v/%s/%s/%s", k.fwd, k.strip, k.shim, k.sessions, c.Forged, c.Auth, c.Kind)
+			if pass != "" {
+				sig += ":concurrent"
+			}
 			if s == nil {
 				hx.Emit("IdCase", "case", id, "sig", sig, "fwd", k.fwd, "strip", k.strip, "asserted", asserted, "saw_user", []string{"<no request reached the backend>"},
 					"saw_auth", []string{"<no request reached the backend>"}, "sent_user", nz(sentUser), "sent_auth", nz(sentAuth), "kind", c.Kind)
@@ -1000,6 +1058,14 @@ func identityDriver(a *Args) {
 			}
 			res.Case(sig, map[string]interface{}{"classes": c})
 		}
+		for _, c := range groups[k] {
+			one(c, "", rng)
+		}
+		// the same cases again, 16 at a time: identities asserted for different requests in flight together
+		g := groups[k]
+		runConcurrently(len(g), 16, func(i int) {
+			one(g[i], "c", rand.New(rand.NewSource(int64(hx.Seed())*1000003+int64(g[i].N))))
+		})
 		if ex, code := agent.Exited(); ex {
 			res.Note("agent exited with %d: %s", code, hx.Tail(agent.Output(), 1200))
 			hx.Emit("ProcExit", "proc", "agent", "code", code)
